@@ -1934,6 +1934,7 @@ pub fn witnesses() -> Vec<Witness> {
         Witness { name: "web-comment-interior", cfg: base_cfg(), text: "PROGRAM P\n(* first\n      aligned   art\n   *)\nx := 1;\nEND_PROGRAM\n", ranges: &[], ontype: &[] },
         Witness { name: "web-stray-cr", cfg: base_cfg(), text: "a\r\r\nb\n", ranges: &[], ontype: &[] },
         Witness { name: "lexer-context-dependent-token", cfg: base_cfg(), text: "x := D#2024-01 ;\n", ranges: &[], ontype: &[] },
+        Witness { name: "align-assign-op-in-token", cfg: Cfg { spacing: Some("compact".into()), ..base_cfg() }, text: "PROGRAM P\nlonger_name := 1;\na <= > b;\nEND_PROGRAM\n", ranges: &[(2, 0, 2, 3)], ontype: &[(2, 9)] },
         Witness { name: "exotic-space", cfg: base_cfg(), text: "x := 1;\n\u{a0}\n// c\n", ranges: &[], ontype: &[] },
     ]
 }
@@ -2426,11 +2427,18 @@ impl<'a> Prober<'a> {
         let eol = if text.contains("\r\n") { "\r\n" } else { "\n" };
         let mut lines: Vec<String> = text.split('\n').map(|l| l.trim_end_matches('\r').to_string()).collect();
         let mut pos = self.fails(cfg, settings, text, op, what).flatten();
+        // a smaller text must not run into a recorded finding the original is free of
+        let guarded = |t: &str| has_irregular_token(t) || lex(t).iter().any(|k| k.kind == TokenKind::Error);
+        let was_guarded = guarded(text);
         let mut i = 0usize;
         while i < lines.len() && self.budget > 0 {
             let mut cand = lines.clone();
             cand.remove(i);
             let t = cand.join(eol);
+            if !was_guarded && guarded(&t) {
+                i += 1;
+                continue;
+            }
             match self.fails(cfg, settings, &t, op, what) {
                 Some(p) => {
                     lines = cand;
@@ -2453,11 +2461,24 @@ fn run_neighbours(args: &Args, out: &mut Out, sessions: &mut Sessions, web: &(We
     for (i, e) in seeds.iter().enumerate() {
         let base = Cfg::parse_line(e["cfg"].as_str().unwrap_or("")).ok_or("bad cfg line in the neighbour file")?;
         let source = e["source"].as_str().unwrap_or("").to_string();
-        for j in 0..args.cases {
+        // `want` = [op, what]: the entry is a failing input already (an oracle failure of a generated case);
+        // it is run as it is, with the request that failed, and shrunk while that failure persists
+        let want: Option<(String, String)> = match (e["want"][0].as_str(), e["want"][1].as_str()) {
+            (Some(a), Some(b)) => Some((a.to_string(), b.to_string())),
+            _ => None,
+        };
+        let nums = |v: &Value| -> Vec<u32> { v.as_array().map(|a| a.iter().filter_map(|x| x.as_u64()).map(|x| x as u32).collect()).unwrap_or_default() };
+        let req_ranges: Vec<(u32, u32, u32, u32)> = e["requests"]["ranges"].as_array().map(|a| a.iter().map(&nums).filter(|v| v.len() == 4).map(|v| (v[0], v[1], v[2], v[3])).collect()).unwrap_or_default();
+        let req_ontype: Vec<(u32, u32)> = e["requests"]["ontype"].as_array().map(|a| a.iter().map(&nums).filter(|v| v.len() == 2).map(|v| (v[0], v[1])).collect()).unwrap_or_default();
+        for j in 0..(if want.is_some() { 1 } else { args.cases }) {
             let n = 100_000 + (i as u64) * 1_000 + j;
             let mut r = Rng::for_case(args.seed, n);
             let (text, cfg) = if j == 0 { (source.clone(), base.clone()) } else { (neighbour_text(&mut r, &source), neighbour_cfg(&mut r, &base)) };
-            let (ranges, pos) = dense_positions(&mut r, &text, 3);
+            let (mut ranges, mut pos) = dense_positions(&mut r, &text, 3);
+            if j == 0 {
+                ranges.splice(0..0, req_ranges.iter().copied());
+                pos.splice(0..0, req_ontype.iter().copied());
+            }
             out.line(format!("case {n}"));
             out.line("tag neighbour");
             CASE_FAILURES.with(|f| f.borrow_mut().clear());
@@ -2465,10 +2486,16 @@ fn run_neighbours(args: &Args, out: &mut Out, sessions: &mut Sessions, web: &(We
             out.line("end");
             let fails = CASE_FAILURES.with(|f| f.borrow().clone());
             out.add("neighbour-variants", 1);
-            if let Some((op, what)) = fails.first() {
+            let target = match &want {
+                Some(w) => fails.iter().find(|f| *f == w),
+                None => fails.first(),
+            };
+            if let Some((op, what)) = target {
                 out.add("neighbour-variants-failing", 1);
-                if shrinks_left > 0 && what != "panic" {
-                    shrinks_left -= 1;
+                if (want.is_some() || shrinks_left > 0) && what != "panic" {
+                    if want.is_none() {
+                        shrinks_left -= 1;
+                    }
                     let settings = cfg.settings(&mut r);
                     let mut p = Prober { sessions: &mut *sessions, web, doc_no: &mut doc_no, budget: 1500 };
                     let (small, at) = p.shrink(&cfg, &settings, &text, op, what);
